@@ -119,16 +119,23 @@ def validate_records(ctx, trace_path, shards=4, workers=4, label="records", time
     return bad, skipped, total
 
 
-def absorb_records(ctx, bad, skipped, total, types=None):
+def absorb_records(ctx, bad, skipped, total, types=None, whys=None):
+    """records TLC rejected become violations of ctx.prop when they are of the given types / reasons;
+    anything else the specification rejects is behaviour outside the listed property: it is reported as
+    an EXTENSION-FINDING (stderr + evidence), never as a violation of this property"""
     ctx.traces += total - skipped
     ctx.extra["b2_records"] = ctx.extra.get("b2_records", 0) + total
     ctx.extra["b2_skipped_out_of_scope"] = ctx.extra.get("b2_skipped_out_of_scope", 0) + skipped
     n = 0
+    import fen as fenlib
     for rec, why, x in bad:
-        if types and rec.get("t") not in types:
+        f = fenlib.fen(rec["pos"]) if "pos" in rec and "b" in rec["pos"] else None
+        if (types and rec.get("t") not in types) or (whys and why not in whys and rec.get("t") in whys.get("_restricted_types", ())):
+            ext = ctx.extra.setdefault("extension_findings", [])
+            if len(ext) < 20:
+                ext.append({"why": why, "fen": f, "record_type": rec.get("t"), "spec_says": x})
+            log("EXTENSION-FINDING (outside %s): %s %s" % (ctx.prop, why, f or ""))
             continue
         n += 1
-        import fen as fenlib
-        f = fenlib.fen(rec["pos"]) if "pos" in rec else None
         ctx.violation(why, {"binding": "B2 record validation", "fen": f, "record": rec, "spec_says": x}, sig=classify(ctx.prop, why, x, f))
     return n
